@@ -265,5 +265,53 @@ def r5_cookie_pair(chk: Check) -> None:
     chk.expect(bool(ch) and any("**(case.cookies or {})" in c_ for c_ in canon(send, ch[0].args[1])), "C06.R5", send, "WSGI send wraps client.open in cookie_handler(case cookies + explicit cookies)", "cookies of the case are not sent through WSGI", send.loc())
 
 
+def r6_no_truthiness_rewrite(chk: Check) -> None:
+    chk.rule("C06.R6", "generated values are never replaced on TRUTHINESS in the transports: where serialize_case / prepare_* walk over the case's query / headers / cookies / path parameters, a value is rewritten only under an explicit comparison (`value == {}`), never by `value or X` / `X if value else Y` / `if not value` (0, False, 0.0, '' and [] are legitimate generated values)", floor=1)
+    P = chk.project
+    CONTAINERS = ("case.query", "case.headers", "case.cookies", "case.path_parameters", "case.body")
+    n = 0
+    for rel in (REQ, WSGI, "transport/prepare.py", "transport/asgi.py"):
+        mod = P.module(rel)
+        for fn in mod.functions.values():
+            iters: list[tuple[ast.AST, ast.expr, ast.expr]] = []  # (scope node, iterable, target)
+            for x in walk_body(fn.node, into_nested=True):
+                if isinstance(x, ast.For):
+                    iters.append((x, x.iter, x.target))
+                elif isinstance(x, (ast.DictComp, ast.ListComp, ast.SetComp, ast.GeneratorExp)):
+                    for g_ in x.generators:
+                        iters.append((x, g_.iter, g_.target))
+            for scope, it, tgt in iters:
+                m = pmatch("$X.items()", it) or pmatch("$X.values()", it)
+                if m is None:
+                    continue
+                base = m["X"]
+                inner = base.values[0] if isinstance(base, ast.BoolOp) else base  # `(params or {}).values()`
+                if not any(any(c_ in t_ for c_ in CONTAINERS) for t_ in canon(fn, inner)):
+                    continue
+                if isinstance(tgt, ast.Tuple) and len(tgt.elts) == 2 and isinstance(tgt.elts[1], ast.Name):
+                    v = tgt.elts[1].id
+                elif isinstance(tgt, ast.Name) and pmatch("$X.values()", it) is not None:
+                    v = tgt.id
+                else:
+                    continue
+                n += 1
+                bad = None
+                for y in ast.walk(scope):
+                    if isinstance(y, ast.BoolOp) and isinstance(y.op, ast.Or) and is_var(y.values[0], v):
+                        bad = (y, f"`{unparse(y, 40)}` replaces every falsy value")
+                    elif isinstance(y, (ast.IfExp, ast.If)) and (is_var(y.test, v) or (isinstance(y.test, ast.UnaryOp) and isinstance(y.test.op, ast.Not) and is_var(y.test.operand, v))):
+                        # only a rewrite of the value counts (a store / a produced element), not a skip of None handled elsewhere
+                        bad = (y, f"`{unparse(y.test, 40)}` decides on truthiness")
+                construct = f"values of {unparse(inner, 40)} are rewritten only under an explicit comparison"
+                if bad is None:
+                    chk.ok("C06.R6", fn, construct, "", fn.loc(scope))
+                else:
+                    chk.violation("C06.R6", fn, construct,
+                                  f"{bad[1]}: a generated `0`, `False`, `0.0` or `[]` is sent as something else (e.g. `limit=` instead of `limit=0`), so the value recovered from the wire is not the generated one",
+                                  fn.loc(bad[0]))
+    if n < 1:
+        chk.undecided("C06.R6", "<discovery>", f"walks={n}", "no walk over the case's containers found in the transports")
+
+
 def rules(tier: str) -> list:  # type: ignore[type-arg]
-    return [r1_registries, r2_content_type, r3_quote_all, r3b_template_ownership, r4_header_writers, r5_cookie_pair]
+    return [r1_registries, r2_content_type, r3_quote_all, r3b_template_ownership, r4_header_writers, r5_cookie_pair, r6_no_truthiness_rewrite]
